@@ -341,6 +341,12 @@ def ciExtracted (c : CIn) (neg : Bool) (t : Rat) : Out :=
   let ks := if neg then negKnots c.series else c.series
   interpCore c.mode ks (finFill (firstVal ks)) (finFill (lastVal ks)) t
 
+/-- what `extract_results` stores for a constant input: the array form
+    `interpolate(times(variable), series.times, series.values, first, last, mode)` at the time stamps `ts`
+    of the variable (`none` = the call raises) -/
+def ciResults (c : CIn) (ts : List Rat) : Option (List XVal) :=
+  interpArray c.mode c.series (finFill (firstVal c.series)) (finFill (lastVal c.series)) ts
+
 end RtcVerif.C15
 
 namespace RtcVerif.C15
